@@ -46,6 +46,22 @@ fn hex_of_len(rng: &mut impl Rng, nbytes: usize) -> String {
     hex::encode(gen::bytes(rng, nbytes))
 }
 
+/// a long line of text with multi-byte characters at random byte offsets (a line of an error page returned by a
+/// contacts URL, a pasted paragraph): exercises every fixed byte offset a parser or its diagnostics might cut at
+fn long_text(rng: &mut impl Rng) -> String {
+    let n = rng.gen_range(0..400);
+    let dense = rng.gen_bool(0.5);
+    (0..n)
+        .map(|_| {
+            if rng.gen_bool(if dense { 0.3 } else { 0.04 }) {
+                *['é', 'ß', '…', '€', '𝔘', '日', '\u{301}'].choose(rng).expect("nonempty")
+            } else {
+                *[b'a', b'/', b'1', b'<', b' ', b'f', b'0', b'-', b'.', b':'].choose(rng).expect("nonempty") as char
+            }
+        })
+        .collect()
+}
+
 fn mutate_str(rng: &mut impl Rng, s: &str) -> String {
     let mut chars: Vec<char> = s.chars().collect();
     match rng.gen_range(0..7) {
@@ -122,11 +138,11 @@ fn sample_registry_json(rng: &mut impl Rng) -> Value {
             json!({
                 "antnode_path": format!("/var/antctl/services/antnode{}/antnode", i + 1),
                 "auto_restart": rng.gen::<bool>(),
-                "connected_peers": if rng.gen() { json!(null) } else { json!([libp2p::PeerId::random().to_string()]) },
+                "connected_peers": match rng.gen_range(0..4) { 0 => json!(null), 1 => json!([]), 2 => json!([libp2p::PeerId::random().to_string()]), _ => json!([libp2p::PeerId::random().to_string(), libp2p::PeerId::random().to_string()]) },
                 "data_dir_path": format!("/var/antctl/services/antnode{}", i + 1),
                 "evm_network": "ArbitrumOne",
                 "home_network": rng.gen::<bool>(),
-                "listen_addr": if rng.gen() { json!(null) } else { json!(["/ip4/127.0.0.1/udp/12000/quic-v1"]) },
+                "listen_addr": match rng.gen_range(0..3) { 0 => json!(null), 1 => json!([]), _ => json!(["/ip4/127.0.0.1/udp/12000/quic-v1"]) },
                 "log_dir_path": format!("/var/log/antnode/antnode{}", i + 1),
                 "log_format": null,
                 "max_archived_log_files": null,
@@ -232,21 +248,38 @@ impl Check for C17 {
         true
     }
     fn required_counters(&self, _tier: Tier) -> Vec<&'static str> {
-        vec!["target:RegisterAddress::from_hex", "target:decrypt_private_key", "target:PortRange::validate", "target:NodeRegistry::from_json", "target:increment_port_option", "wallet:authentic-ciphertexts"]
+        vec!["target:RegisterAddress::from_hex", "target:decrypt_private_key", "target:PortRange::validate", "target:NodeRegistry::from_json", "target:increment_port_option", "wallet:authentic-ciphertexts", "log-events-formatted"]
     }
     fn miri_lane(&self, tier: Tier) -> Option<(Vec<&'static str>, usize, usize)> {
         if tier == Tier::Thorough { Some((vec!["record", "address", "amount", "message"], 8, 300)) } else { None }
     }
     fn run_case(&self, cx: &mut Cx) {
+        // the shipped binaries run with logging enabled, `cargo test` without: odd cases run under a subscriber that
+        // evaluates and formats the arguments of every log statement the parsers reach
+        let logging = cx.index % 2 == 1;
+        crate::logsink::set(logging);
+        let ev0 = crate::logsink::events();
+        self.run_case_inner(cx);
+        if logging {
+            cx.count("cases-with-logging-enabled");
+            cx.count_n("log-events-formatted", crate::logsink::events() - ev0);
+        }
+        crate::logsink::set(false);
+    }
+}
+
+impl C17 {
+    fn run_case_inner(&self, cx: &mut Cx) {
         let mut t = T { cx };
         let rng_len = |t: &mut T| -> usize { *[0usize, 1, 2, 7, 8, 15, 16, 19, 20, 21, 31, 32, 33, 47, 48, 49, 79, 80, 81, 96, 200].choose(&mut t.cx.rng).expect("nonempty") };
 
         // ---- hex addresses
         for _ in 0..30 {
-            let s = match t.cx.rng.gen_range(0..8) {
+            let s = match t.cx.rng.gen_range(0..9) {
                 0 => String::new(),
                 1 => "0".into(),
                 2 => "zz".into(),
+                8 => long_text(&mut t.cx.rng),
                 3 | 4 => {
                     let n = rng_len(&mut t);
                     hex_of_len(&mut t.cx.rng, n)
@@ -385,10 +418,12 @@ impl Check for C17 {
         }
         for _ in 0..20 {
             let valid = "/ip4/127.0.0.1/udp/12000/quic-v1/p2p/12D3KooWRBhwfeP2Y4TCx1SM6s9rUoHhR5STiGwxBhgFRcw3UERE";
-            let s: String = match t.cx.rng.gen_range(0..6) {
+            let s: String = match t.cx.rng.gen_range(0..8) {
                 0 => String::new(),
                 1 => "/".into(),
                 2 => mutate_str(&mut t.cx.rng, valid),
+                6 => long_text(&mut t.cx.rng),
+                7 => format!("{valid}{}", long_text(&mut t.cx.rng)),
                 3 => format!("/ip4/{}.1.1.1/udp/{}/quic-v1", t.cx.rng.gen_range(0..300), t.cx.rng.gen_range(0..70000)),
                 4 => "/p2p/".to_string() + &"1".repeat(t.cx.rng.gen_range(0..80)),
                 _ => valid.replace("udp", ["tcp", "ws", "dns", "p2p-circuit", "ip6"].choose(&mut t.cx.rng).expect("nonempty")),
@@ -421,7 +456,8 @@ impl Check for C17 {
                     if saved == Some(true) {
                         let p = reg2.save_path.clone();
                         let loaded = t.run("NodeRegistry::load", "<saved registry>".into(), || NodeRegistry::load(&p).ok());
-                        let same = loaded.flatten().map(|l| serde_json::to_value(&l).ok() == serde_json::to_value(&reg2).ok()).unwrap_or(false);
+                        // compared through Debug as well: the JSON comparison alone would go through the serialiser under test twice
+                        let same = loaded.flatten().map(|l| serde_json::to_value(&l).ok() == serde_json::to_value(&reg2).ok() && format!("{l:?}") == format!("{reg2:?}")).unwrap_or(false);
                         if !same {
                             t.rt_fail("NodeRegistry::load", "load(save(registry)) != registry".into());
                         }
